@@ -11,14 +11,18 @@
     for the target shell); the cycle class, both directions, together with soundness and
     completeness of the cycle search on arbitrary definition lists; a grammar free of all these
     classes can only be rejected by check_subword_spaces (below).
-    NOT provable for the code as it is: "subword_spaces g sh = true -> rejected" -- the walk of
-    check_subword_spaces does not see two space-separated literals inside a word when they are
-    reached through nonterminals referenced directly in a call variant
-    (cmd p(<A> <B>); <A> ::= a; <B> ::= b;  is accepted: finding F1 of REPORT-checkproofs).
+    Since the repair of finding F1 (check_subword_spaces sees literals through nonterminals in
+    space-separated sequences) also: [subword_spaces g sh] is rejected with SubwordSpaces
+    (C08_subword_spaces).  The converse is not claimed: juxtaposed literals `foo(bar)` are rejected
+    with the same error although nothing is space-separated (known converse finding
+    `juxtaposed_literals_rejected`).
     The classes decided by the regex and DFA ambiguity checks are tied (T1) and judged on planted
     mistakes by lib/vf/checks/c08.py. *)
 From CG Require Import Base.Prelude Model.Ast Model.Check Spec.Choice Spec.Mistakes Proofs.CheckMistakes.
 From CG Require Import Proofs.CheckLemmas Proofs.CheckCycle Proofs.CheckFront Proofs.CheckCycleSpec.
+From CG Require Import Proofs.CheckSpacesSpec.
+From CG Require Import Model.Dfa Model.Ambiguity.
+From CG Require Proofs.AmbWalk.
 
 Theorem C08_no_call_variant :
   forall builtins g sh,
@@ -195,6 +199,95 @@ Check C08_clean_accepted_unless_subword_spaces :
     (exists l r trace, from_grammar builtins g sh = Err (SubwordSpaces l r trace)).
 Print Assumptions C08_clean_accepted_unless_subword_spaces.
 
+(** *** Spaces inside a word.  [grammar_word_roots_ok g]: every word of the source is a
+    juxtaposition ([Subword] over a [Sequence]), which is what the parser builds.  When some word
+    of the expansion of a call variant contains two space-separated literals
+    ([Mistakes.subword_spaces]: directly or through chosen definitions, at any depth) and no
+    earlier class is present, the grammar is rejected with [SubwordSpaces]. *)
+Theorem C08_subword_spaces :
+  forall builtins g sh,
+    no_call_variant g = false -> varying_names g = false -> slash_in_name g = false ->
+    duplicate_plain g = false ->
+    unknown_shell g = false -> non_command_for_shell g = false -> duplicate_for_shell g sh = false ->
+    specs_have_command_plain g = true -> cyclic g sh = false ->
+    grammar_word_roots_ok g = true ->
+    subword_spaces g sh = true ->
+    exists l r trace, from_grammar builtins g sh = Err (SubwordSpaces l r trace).
+Proof. exact subword_spaces_rejected. Qed.
+Check C08_subword_spaces :
+  forall builtins g sh,
+    no_call_variant g = false -> varying_names g = false -> slash_in_name g = false ->
+    duplicate_plain g = false ->
+    unknown_shell g = false -> non_command_for_shell g = false -> duplicate_for_shell g sh = false ->
+    specs_have_command_plain g = true -> cyclic g sh = false ->
+    grammar_word_roots_ok g = true ->
+    subword_spaces g sh = true ->
+    exists l r trace, from_grammar builtins g sh = Err (SubwordSpaces l r trace).
+Print Assumptions C08_subword_spaces.
+
+(** *** "The same literal expected at one point with two different descriptions": what the walk of
+    [DFA::check_ambiguity_best_effort] (Model/Ambiguity.v, tied by this check) decides.
+    [AmbWalk.reachable d u]: [u] is reachable from the start state through transitions;
+    [AmbWalk.conflicting d u]: two literal inputs leave [u] with the same text and different
+    descriptions; [AmbWalk.star_ambiguous d u]: two or more star inputs leave [u], one of them to a
+    non-accepting state; [AmbWalk.lpath d s u q]: [q] lists the inputs along a path from [s] to [u].
+    (That the walk neither panics nor runs out of fuel -- [AmbWalk.fine] -- is proved with the
+    other totality results.) *)
+Theorem C08_ambiguity_accepts :
+  forall d, check_ambiguity_best_effort d = Ok tt ->
+    forall u, AmbWalk.reachable d u ->
+      AmbWalk.inputs_in_range d u /\ ~ AmbWalk.star_ambiguous d u /\ ~ AmbWalk.conflicting d u.
+Proof. exact AmbWalk.amb_accepts. Qed.
+Check C08_ambiguity_accepts :
+  forall d, check_ambiguity_best_effort d = Ok tt ->
+    forall u, AmbWalk.reachable d u ->
+      AmbWalk.inputs_in_range d u /\ ~ AmbWalk.star_ambiguous d u /\ ~ AmbWalk.conflicting d u.
+Print Assumptions C08_ambiguity_accepts.
+
+Theorem C08_ambiguity_rejects :
+  forall d e, check_ambiguity_best_effort d = Err e ->
+    exists u q, AmbWalk.lpath d (d_start d) u q /\ AmbWalk.reachable d u /\
+      ((exists ins, e = AmbiguousDFA q ins /\ AmbWalk.star_ambiguous d u) \/
+       (exists t l r, e = ConflictingDescriptions q t l r /\ AmbWalk.conflicting d u)).
+Proof. exact AmbWalk.amb_rejects. Qed.
+Check C08_ambiguity_rejects :
+  forall d e, check_ambiguity_best_effort d = Err e ->
+    exists u q, AmbWalk.lpath d (d_start d) u q /\ AmbWalk.reachable d u /\
+      ((exists ins, e = AmbiguousDFA q ins /\ AmbWalk.star_ambiguous d u) \/
+       (exists t l r, e = ConflictingDescriptions q t l r /\ AmbWalk.conflicting d u)).
+Print Assumptions C08_ambiguity_rejects.
+
+Theorem C08_ambiguity_decides :
+  forall d, AmbWalk.fine (check_ambiguity_best_effort d) ->
+    (check_ambiguity_best_effort d = Ok tt <->
+     forall u, AmbWalk.reachable d u -> ~ AmbWalk.star_ambiguous d u /\ ~ AmbWalk.conflicting d u).
+Proof. exact AmbWalk.amb_decides. Qed.
+Check C08_ambiguity_decides :
+  forall d, AmbWalk.fine (check_ambiguity_best_effort d) ->
+    (check_ambiguity_best_effort d = Ok tt <->
+     forall u, AmbWalk.reachable d u -> ~ AmbWalk.star_ambiguous d u /\ ~ AmbWalk.conflicting d u).
+Print Assumptions C08_ambiguity_decides.
+
+(** the sort / dedup / neighbour comparison of one state finds a clash iff there is one *)
+Theorem C08_conflict_search :
+  forall lits, first_conflict (dedup (sort_by_text lits)) = None <-> ~ AmbWalk.has_clash lits.
+Proof. exact AmbWalk.conflict_search_correct. Qed.
+Check C08_conflict_search :
+  forall lits, first_conflict (dedup (sort_by_text lits)) = None <-> ~ AmbWalk.has_clash lits.
+Print Assumptions C08_conflict_search.
+
+(** Non-vacuity: a DFA whose second state has the literal "x" with two descriptions, far from
+    each other in the input order, is rejected with the path ["go"]; without it, accepted. *)
+Definition ex_amb (de : option string) : dfa :=
+  mkdfa 0 [(0, [(0, 1)]); (1, [(1, 2); (2, 2); (3, 2); (4, 1)]); (2, [])] [2]
+        [ILit "go" None 0; ILit "x" (Some "one") 0; ILit "a" None 0; ILit "x" de 0; IStar].
+Example ex_C08_ambiguity_inhabited :
+  check_ambiguity_best_effort (ex_amb (Some "two"))
+  = Err (ConflictingDescriptions [ILit "go" None 0] "x" "one" "two")
+  /\ check_ambiguity_best_effort (ex_amb (Some "one")) = Ok tt.
+Proof. vm_compute. split; reflexivity. Qed.
+Print Assumptions ex_C08_ambiguity_inhabited.
+
 (** Non-vacuity: concrete grammars meet each hypothesis, and a clean one is accepted by the model. *)
 Definition ex_sp := mkspan 1 1 2.
 Definition ex_dup : grammar :=
@@ -262,7 +355,9 @@ Example ex_C08_F1_subword_spaces_behind_root_refs :
   /\ present (fun _ => []) ex_f1_deeper Bash = [MSubwordSpaces]
   /\ is_ok (from_grammar (fun _ => []) ex_f1_deeper Bash) = false
   /\ present (fun _ => []) ex_f1_juxtaposed Bash = []
-  /\ is_ok (from_grammar (fun _ => []) ex_f1_juxtaposed Bash) = true.
+  /\ is_ok (from_grammar (fun _ => []) ex_f1_juxtaposed Bash) = true
+  /\ forallb grammar_word_roots_ok [ex_f1; ex_f1_direct; ex_f1_deeper; ex_f1_juxtaposed] = true
+  /\ specs_have_command_plain ex_f1 = true.
 Proof. vm_compute. repeat split; reflexivity. Qed.
 Print Assumptions ex_C08_F1_subword_spaces_behind_root_refs.
 
